@@ -481,7 +481,9 @@ Proof.
   assert (H2 : Forall (lab_is None) (snd (ph2 ls st m))).
   { unfold ph2. destruct ((f_line st <? g_line m) && (0 <? f_col st)); [|constructor]. cbn [snd].
     destruct (f_line st <=? len ls); [|constructor].
-    destruct (line_at ls (f_line st)); [|constructor]. constructor; [reflexivity|constructor]. }
+    destruct (line_at ls (f_line st)); [|constructor]. cbv zeta.
+    match goal with |- context [is_nil ?x] => destruct (is_nil x) end; [constructor|].
+    constructor; [reflexivity|constructor]. }
   destruct (ph2 ls st m) as [st2 ev2]. cbn [snd] in H2.
   assert (H3 : Forall (lab_is None) (snd (ph3 ls st2 m))).
   { unfold ph3. destruct (f_line st2 <? g_line m); [|constructor]. cbn [snd]. apply whole_lines_labels. }
@@ -489,16 +491,19 @@ Proof.
   assert (H4 : Forall (lab_is None) (snd (ph4 ls st3 m))).
   { unfold ph4. destruct (f_col st3 <? g_col m); [|constructor]. cbn [snd].
     destruct (f_line st3 <=? len ls); [|constructor].
-    destruct (line_at ls (f_line st3)); [|constructor]. constructor; [reflexivity|constructor]. }
+    destruct (line_at ls (f_line st3)); [|constructor]. cbv zeta.
+    match goal with |- context [is_nil ?x] => destruct (is_nil x) end; [constructor|].
+    constructor; [reflexivity|constructor]. }
   destruct (ph4 ls st3 m) as [st4 ev4]. cbn [snd] in *.
   apply Forall_app. split; [exact H2|]. apply Forall_app. split; assumption.
 Qed.
 
 Lemma step_decomp ls fl fc st m :
   sm_full_step ls fl fc st m =
-  (ph5 fl fc (fst (ph24 ls (fst (ph1 ls st m)) m)) m, snd (ph1 ls st m) ++ snd (ph24 ls (fst (ph1 ls st m)) m)).
+  if step_guard st m then (st, [])
+  else (ph5 fl fc (fst (ph24 ls (fst (ph1 ls st m)) m)) m, snd (ph1 ls st m) ++ snd (ph24 ls (fst (ph1 ls st m)) m)).
 Proof.
-  rewrite sm_full_step_eq. unfold ph24. destruct (ph1 ls st m) as [st1 ev1]. cbn [fst snd].
+  rewrite sm_full_step_eq. destruct (step_guard st m); [reflexivity|]. unfold ph24. destruct (ph1 ls st m) as [st1 ev1]. cbn [fst snd].
   destruct (ph2 ls st1 m) as [st2 ev2]. destruct (ph3 ls st2 m) as [st3 ev3].
   destruct (ph4 ls st3 m) as [st4 ev4]. reflexivity.
 Qed.
@@ -540,7 +545,7 @@ Lemma step_attr ms pre st m :
   Forall (chunk_good ms) (snd (sm_full_step ls fl fc st m)).
 Proof.
   intros HI HL Hle HV Hms. pose proof (Inv_active_le ls fl fc Hend st HI) as Hact. destruct HI as [H1 _].
-  rewrite step_decomp. cbn [snd].
+  rewrite step_decomp, (proj2 (step_guard_false st m) Hle). cbn [snd].
   pose proof (ph1_spec ls (Vb ls) SOK st m H1 Hact Hle HV) as [A1 [A2 [A3 A4]]].
   pose proof (ph1_labels ls st m) as L1. pose proof (ph1_cases ls st m H1 Hact) as Hc.
   pose proof (ph24_spec ls (Vb ls) SOK (fst (ph1 ls st m)) m A1 A2 HV) as [B1 [B2 B3]].
@@ -575,7 +580,7 @@ Lemma step_label pre st m :
   LabelInv ls (pre ++ [m]) (fst (sm_full_step ls fl fc st m)).
 Proof.
   intros HI HL Hle HV. pose proof (Inv_active_le ls fl fc Hend st HI) as Hact. destruct HI as [H1 _].
-  rewrite step_decomp. cbn [fst].
+  rewrite step_decomp, (proj2 (step_guard_false st m) Hle). cbn [fst].
   pose proof (ph1_spec ls (Vb ls) SOK st m H1 Hact Hle HV) as [A1 [A2 [A3 _]]].
   pose proof (ph24_spec ls (Vb ls) SOK (fst (ph1 ls st m)) m A1 A2 HV) as [B1 [B2 _]].
   set (st4 := fst (ph24 ls (fst (ph1 ls st m)) m)) in *.
@@ -658,7 +663,7 @@ Proof.
   - assert (Ha : f_active st = false).
     { destruct (f_active st) eqn:Ea; [|reflexivity]. destruct A2 as [_ A2]. specialize (A2 Ea).
       exfalso. apply Hnle. unfold plt in A2. unfold ple. lia. }
-    rewrite (inert_step ls fl fc Hend st Hn Ha Hnle). constructor.
+    rewrite (inert_step ls fl fc st Hn Ha Hnle). constructor.
 Qed.
 
 End FullAttr.
@@ -1029,20 +1034,22 @@ Proof.
   unfold ph24.
   assert (H2 : only_chunks (snd (ph2 ls st m)) = true).
   { unfold ph2. destruct ((f_line st <? g_line m) && (0 <? f_col st)); [|reflexivity]. cbn [snd].
-    destruct (f_line st <=? len ls); [|reflexivity]. destruct (line_at ls (f_line st)); reflexivity. }
+    destruct (f_line st <=? len ls); [|reflexivity]. destruct (line_at ls (f_line st)); [|reflexivity]. cbv zeta.
+    match goal with |- context [is_nil ?x] => destruct (is_nil x) end; reflexivity. }
   destruct (ph2 ls st m) as [st2 ev2]. cbn [snd] in H2.
   assert (H3 : only_chunks (snd (ph3 ls st2 m)) = true).
   { unfold ph3. destruct (f_line st2 <? g_line m); [|reflexivity]. cbn [snd]. apply whole_lines_only. }
   destruct (ph3 ls st2 m) as [st3 ev3]. cbn [snd] in H3.
   assert (H4 : only_chunks (snd (ph4 ls st3 m)) = true).
   { unfold ph4. destruct (f_col st3 <? g_col m); [|reflexivity]. cbn [snd].
-    destruct (f_line st3 <=? len ls); [|reflexivity]. destruct (line_at ls (f_line st3)); reflexivity. }
+    destruct (f_line st3 <=? len ls); [|reflexivity]. destruct (line_at ls (f_line st3)); [|reflexivity]. cbv zeta.
+    match goal with |- context [is_nil ?x] => destruct (is_nil x) end; reflexivity. }
   destruct (ph4 ls st3 m) as [st4 ev4]. cbn [snd] in *.
   rewrite !only_chunks_app, H2, H3, H4. reflexivity.
 Qed.
 
 Lemma step_only ls fl fc st m : only_chunks (snd (sm_full_step ls fl fc st m)) = true.
-Proof. rewrite step_decomp. cbn [snd]. rewrite only_chunks_app, ph1_only, ph24_only. reflexivity. Qed.
+Proof. rewrite step_decomp. destruct (step_guard st m); [reflexivity|]. cbn [snd]. rewrite only_chunks_app, ph1_only, ph24_only. reflexivity. Qed.
 
 Lemma loop_only ls fl fc : forall ms st, only_chunks (snd (sm_full_loop ls fl fc st ms)) = true.
 Proof.
